@@ -226,6 +226,15 @@ def gen_scenario(c, i, seed, tier):
             d = rng.choice(c.generated_dirs)
             ext = ".md" if d.startswith("wowm_language") else ".rs"
             name = "zz_verif_extra_%d%s" % (rng.randrange(1000), ext)
+            if kind == "extra_file" and rng.random() < 0.5:
+                # a stale artefact whose name is derived from a live one in the same directory (another case, a suffix, a
+                # prefix): what a rename of a definition or a checkout from a case-insensitive file system leaves behind
+                sibs = [os.path.basename(g) for g in gen if os.path.dirname(g) == d and g.endswith(ext) and os.path.basename(g) not in ("mod.rs", "opcodes.rs", "SUMMARY.md")]
+                if sibs:
+                    stem = rng.choice(sibs)[: -len(ext)]
+                    name = rng.choice([stem.upper(), stem.capitalize(), stem + "_old", "old_" + stem, stem + "2"]) + ext
+                    if name in [x + "" for x in (os.path.basename(g) for g in gen if os.path.dirname(g) == d)]:
+                        name = "zz_verif_extra_%d%s" % (rng.randrange(1000), ext)
             faults.append({"kind": kind, "path": os.path.join(d, name if kind == "extra_file" else "zz_verif_dir_%d" % rng.randrange(1000))})
         elif kind == "delete_dir":
             d = rng.choice(c.removable_dirs if rng.random() < 0.5 else c.generated_dirs)
